@@ -7,6 +7,10 @@ for d in $ids; do
   p=$V/seeded/$d/patch.diff; id=${d%%-*}
   if ! git -C $R apply --check $p 2>/dev/null; then echo "$d: patch does not apply to the current tree"; continue; fi
   git -C $R apply $p
+  if grep -q '"neutralised_by"' $V/seeded/$d/meta.json; then
+    o=$(./check $id 2>&1); if echo "$o" | grep -q "^VIOLATION"; then echo "$d: ALARM on a change a later repair made harmless"; else echo "$d: harmless since $(python3 -c "import json;print(json.load(open('$V/seeded/$d/meta.json'))['neutralised_by'])"), no alarm"; fi
+    git -C $R checkout -- .; continue
+  fi
   o=$(./check $id 2>&1); 
   if echo "$o" | grep -q "^VIOLATION"; then n=$(echo "$o" | grep -c "^VIOLATION"); nf=$(echo "$o" | grep -c "no-failing-input-found"); echo "$d: caught ($n violation lines, $nf without input)"; else echo "$d: MISSED"; fi
   git -C $R checkout -- .
